@@ -410,3 +410,139 @@ Definition E8_batch (v : variant) (held : list N) (batch : Z) : gout :=
   let n := match v with Fixed => Z.max 0 batch | AsIs => batch end in
   let n := Z.min n (zlen held) in
   sliced held 0 n 9 (fun _ => GPass).
+
+(* ================= E7  SD-JWT helpers (sdjwt/common): getDisclosureClaim, stringArray, GetCNF, digests *)
+(* arr[i]: panics when i is out of range *)
+Definition idx {A} (l : list A) (i : nat) (site : N) (k : A -> gout) : gout :=
+  match nth_error l i with Some x => k x | None => GPanic site end.
+Definition is_jstr (j : json) : bool := match j with JStr _ => true | _ => false end.
+
+(* getDisclosureClaim on the decoded disclosure (None: base64 / JSON failure, or not a JSON array) *)
+Definition E7_disclosure (d : option (list json)) : gout :=
+  match d with
+  | None => GRej 0
+  | Some arr =>
+      check (List.length arr <? 2)%nat 71 >>>
+      idx arr 0 7 (fun salt =>
+        (* the error text formats disclosureArr[1] *)
+        (if is_jstr salt then GPass else idx arr 1 7 (fun _ => GRej 72)) >>>
+        match List.length arr with
+        | 2%nat => idx arr 1 7 (fun _ => GPass)                       (* array element: the value *)
+        | 3%nat => idx arr 1 7 (fun name =>
+                     (if is_jstr name then GPass else GRej 73) >>>
+                     idx arr 2 7 (fun _ => GPass))                     (* name, value *)
+        | _ => GPass
+        end)
+  end.
+
+(* stringArray *)
+Definition string_array (j : json) : res (list string) :=
+  match j with
+  | JNull => Ok []
+  | JArr l =>
+      (fix go (l : list json) : res (list string) :=
+         match l with
+         | [] => Ok []
+         | JStr s :: r => match go r with Ok t => Ok (s :: t) | e => e end
+         | _ :: _ => Err EInvalid
+         end) l
+  | _ => Err EInvalid
+  end.
+
+(* the digests of array elements: objects with the single member "..." holding a string *)
+Definition elem_digest (j : json) : list string :=
+  match j with
+  | JObj [(k, JStr d)] => if String.eqb k "..." then [d] else []
+  | _ => []
+  end.
+Definition array_digests (claims : list (string * json)) : list string :=
+  flat_map (fun kv => match snd kv with JArr l => flat_map elem_digest l | _ => [] end) claims.
+
+(* GetDisclosureDigests *)
+Definition E7_digests (claims : list (string * json)) : res (list string) :=
+  match lookup claims "_sd" with
+  | Some sd => match string_array sd with
+               | Ok l => Ok (List.app l (array_digests claims))
+               | e => e
+               end
+  | None => Ok (array_digests claims)
+  end.
+
+(* GetCNF *)
+Definition E7_cnf (claims : list (string * json)) : gout :=
+  let found :=
+    match lookup claims "cnf" with
+    | Some c => Some c
+    | None => match lookup claims "vc" with
+              | Some (JObj vc) => lookup vc "cnf"
+              | _ => None
+              end
+    end in
+  match found with
+  | None => GRej 76
+  | Some (JObj _) => GPass
+  | Some _ => GRej 77
+  end.
+
+(* ================= E9  connection protocol handlers (DID Exchange / legacy connection), introduce, pack side *)
+(* getInvitationRecipientKey: invitation.RecipientKeys[0] unless the invitation names a DID *)
+Definition E9_invitation_key (v : variant) (has_did : bool) (keys : list string) : gout :=
+  if has_did then GPass                                            (* resolved through the VDR (library) *)
+  else guard v (match keys with [] => true | _ => false end) 94 >>> idx keys 0 94 (fun _ => GPass).
+
+(* response / ack / complete: the connection record is fetched by ~thread.thid, then response.Thread.ID is read *)
+Definition E9_thread (thread : option string) (record_found : bool) : gout :=
+  let thid := match thread with Some t => t | None => EmptyString end in
+  check (String.eqb thid EmptyString) 91 >>> lib record_found >>> deref thread 91 (fun _ => GPass).
+
+(* resolveDidDocFromMessage: did_doc~attach may be absent *)
+Definition E9_attachment (did_ok public : bool) (attach : option bool) : gout :=
+  lib did_ok >>>
+  if public then GPass
+  else check (is_none attach) 92 >>> deref attach 92 (fun fetch_ok => lib fetch_ok).
+
+(* legacy connection response: connRecord.RecipientKeys[0], connection~sig, its signed data *)
+Record sigview := { sv_data_ok : bool;       (* sig_data is base64 *)
+                    sv_data_len : Z;         (* length of the decoded signed data *)
+                    sv_sig_ok : bool }.      (* signature is base64 *)
+
+Definition E9_legacy_response (v : variant) (rec_keys : list (bool * bool)) (sig : option sigview)
+  (verify_ok : bool) : gout :=
+  guard v (match rec_keys with [] => true | _ => false end) 95 >>>
+  idx rec_keys 0 95 (fun key =>
+    let '(is_didkey, ascii) := key in
+    guard v (is_none sig) 96 >>>
+    deref sig 96 (fun s =>
+      lib (sv_data_ok s) >>> check (sv_data_len s =? 0)%Z 97 >>> lib (sv_sig_ok s) >>>
+      (if is_didkey then GPass else guard v (negb ascii) 98 >>> b58_decode ascii 98) >>>
+      lib verify_ok >>>
+      check (sv_data_len s <=? 8)%Z 99 >>>
+      sliced (repeat 0 (Z.to_nat (sv_data_len s))) 8 (sv_data_len s) 99 (fun _ => GPass))).   (* sigData[8:] *)
+
+(* didkeyutil.ConvertBase58KeysToDIDKeys; per key: (empty, starts with ?/#, starts with "did:", ASCII) *)
+Fixpoint E9_convert_keys (v : variant) (keys : list (bool * bool * bool * bool)) : gout :=
+  match keys with
+  | [] => GPass
+  | (empty, rel, isdid, ascii) :: r =>
+      (if empty || rel || isdid then GPass
+       else match v with
+            | Fixed => if ascii then b58_decode ascii 90 else GPass     (* a non-ASCII key is kept as it is *)
+            | AsIs => b58_decode ascii 90
+            end) >>> E9_convert_keys v r
+  end.
+
+(* packager.PackMessage, legacy profile: recipient keys taken from the peer's invitation / DID document *)
+Fixpoint E9_pack_keys (v : variant) (keys : list bool) : gout :=
+  match keys with
+  | [] => GPass
+  | ascii :: r => guard v (negb ascii) 89 >>> b58_decode ascii 89 >>> E9_pack_keys v r
+  end.
+
+(* introduce getMetaRecipients: an entry is a *Recipient (set by the application in this run) or a decoded JSON
+   object (reloaded from the metadata store) *)
+Fixpoint E9_meta_recipients (v : variant) (typed : list bool) : gout :=
+  match typed with
+  | [] => GPass
+  | t :: r => (if t then GPass else match v with AsIs => GPanic 88 | Fixed => GPass end) >>>
+              E9_meta_recipients v r
+  end.
